@@ -3,7 +3,7 @@ from reg._common import COMMON_ASSUME
 
 ENTRY = {
     'extractors': ['translate_py.py', 'translate_f90.py'],
-    'lean_files': ['Tables/SrcPyNewton.lean', 'Tables/SrcF90Pipeline.lean', 'Tables/SrcPyKernels.lean', 'Tables/SrcPy.lean', 'Tables/C03.lean', 'Props/C03.lean', 'Props/C03Pipeline.lean', 'Props/C03Coverage.lean', 'Props/C03Trace.lean', 'Props/C03Tangent.lean', 'Props/C03BoxLine.lean'],
+    'lean_files': ['Tables/SrcPyPipeline.lean', 'Tables/SrcPyNewton.lean', 'Tables/SrcF90Pipeline.lean', 'Tables/SrcPyKernels.lean', 'Tables/SrcPy.lean', 'Tables/C03.lean', 'Props/C03.lean', 'Props/C03Pipeline.lean', 'Props/C03Coverage.lean', 'Props/C03Trace.lean', 'Props/C03Tangent.lean', 'Props/C03BoxLine.lean'],
     'lemma_files': ['Lemmas/CoverageTangent.lean', 'Lemmas/CoverageBoxLine.lean', 'Lemmas/BoxLine.lean', 'Lemmas/SelfCover.lean', 'Lemmas/Overlap.lean', 'Model/GeometricTrace.lean', 'Lemmas/Coverage.lean', 'Model/Geometric.lean', 'Model/GeometricInst.lean', 'Model/Helpers.lean', 'Model/Newton.lean', 'Model/Locate.lean', 'Lemmas/Pipeline.lean', 'Lemmas/TangentEnds.lean', 'Lemmas/EvalBary.lean', 'Lemmas/Bridge.lean', 'Lemmas/Shift.lean',
                     'Lemmas/VS.lean', 'Model/Curve.lean', 'Model/Basic.lean'],
     'script': 'props/c03.py',
